@@ -94,7 +94,8 @@ class CallMixin:
         if isinstance(o, SNone):
             return [self.raise_(st, 'AttributeError', origin='None.%s L%d' % (attr, ln))]
         if isinstance(o, SStr):
-            if attr in ('strip', 'startswith', 'endswith', 'split', 'replace'):
+            if attr in ('strip', 'startswith', 'endswith', 'split', 'replace', 'lower', 'upper', 'lstrip', 'rstrip', 'title', 'casefold',
+                        'decode', 'encode'):
                 out = []
                 for s2, isnull in self.branch(st, o.t == none_s, 'isnone'):
                     if isnull:
@@ -105,6 +106,8 @@ class CallMixin:
             raise ToolLimit('str.%s' % attr)
         if isinstance(o, SList) and attr == 'append':
             return [(st, SFunc(None, self_val=o, builtin='list.append'))]
+        if isinstance(o, SList) and attr == 'index':
+            return [(st, SFunc(None, self_val=o, builtin='list.index'))]
         if isinstance(o, SModule):
             return [(st, self.module_attr(o, attr))]
         if isinstance(o, SExc):
@@ -357,6 +360,60 @@ class CallMixin:
         st.locals[tgt] = new
         return [(st, NONE)]
 
+    def bi_bool(self, f, pos, kws, st, ln):
+        if not pos:
+            return [(st, SBool(False))]
+        out = []
+        for s2, t in self.truth(st, pos[0], origin='bool() L%d' % ln):
+            if isinstance(t, Raised):
+                out.append((s2, t))
+            else:
+                out.append((s2, SBool(t if not isinstance(t, bool) else z3.BoolVal(t))))
+        return out
+
+    def bi_list_index(self, f, pos, kws, st, ln):
+        """lst.index(x): position of the first element equal to x, ValueError when there is none (elements compared as nodes / strings)"""
+        lst, x = f.self_val, pos[0]
+        if len(pos) != 1 or kws or not isinstance(x, (SNode, SStr)):
+            raise ToolLimit('list.index with these arguments')
+        co = getattr(lst, 'children_of', None)
+        out = []
+        if co is not None and isinstance(x, SNode):
+            H, p = co
+            for s2, found in self.branch(st, z3.And(x.t != null, H.mem(p, x.t)), 'index'):
+                if found:
+                    out.append((s2, SInt(H.pos(p, x.t))))
+                else:
+                    out.append(self.raise_(s2, 'ValueError', origin='list.index L%d' % ln))
+            return out
+        r = z3.Int('r!idx%d' % self.W.counter)
+        j = z3.Int('j!idx%d' % self.W.counter)
+        self.W.counter += 1
+
+        def same(k):
+            e = lst.elem(k)
+            if type(e) is not type(x):
+                raise ToolLimit('list.index over a list of %r' % (e,))
+            return e.t == x.t
+        if lst.concrete is not None:
+            n = len(lst.concrete)
+            hit = z3.Or(*[same(i) for i in range(n)]) if n else z3.BoolVal(False)
+            first = z3.IntVal(0)
+            for i in reversed(range(n)):
+                first = z3.If(same(i), z3.IntVal(i), first)
+            for s2, found in self.branch(st, hit, 'index'):
+                out.append((s2, SInt(first)) if found else self.raise_(s2, 'ValueError', origin='list.index L%d' % ln))
+            return out
+        exists = z3.Exists([j], z3.And(0 <= j, j < lst.length, same(j)))
+        for s2, found in self.branch(st, exists, 'index'):
+            if found:
+                s2.assume(z3.And(0 <= r, r < lst.length, same(r),
+                                 z3.ForAll([j], z3.Implies(z3.And(0 <= j, j < r), z3.Not(same(j))))))
+                out.append((s2, SInt(r)))
+            else:
+                out.append(self.raise_(s2, 'ValueError', origin='list.index L%d' % ln))
+        return out
+
     def bi_tuple(self, f, pos, kws, st, ln):
         return self.bi_list(f, pos, kws, st, ln)
 
@@ -490,6 +547,18 @@ class CallMixin:
         if isinstance(a, SObj) and isinstance(b, SCls) and not isinstance(b.cls, str) and '$cls' not in st.fields(a) \
                 and a.cls.name != 'MosFile':
             return [(st, SBool(a.cls.is_subclass_of(b.cls)))]
+        if isinstance(a, SObj) and isinstance(b, SCls) and not isinstance(b.cls, str):
+            if a.cls.is_subclass_of(b.cls):
+                return [(st, SBool(True))]
+            cv = st.fields(a).get('$cls')
+            if isinstance(cv, SSymCls):
+                subs = [c for c in self.repo.classes.values() if c.is_subclass_of(b.cls)]
+                return [(st, SBool(z3.Or(*[cv.t == self.W.clsconst(c.name) for c in subs])))]
+            if cv is None and b.cls.is_subclass_of(a.cls):
+                # an object known only by a base class: whether it is an instance of the subclass is an unknown, fixed per (object, class)
+                return [(st, SBool(z3.Bool('isinst!%s!%s' % (a.oid, b.cls.name))))]
+            if cv is None and not b.cls.is_subclass_of(a.cls):
+                raise ToolLimit('isinstance(%r, %r): unrelated classes' % (a, b))
         raise ToolLimit('isinstance(%r, %r)' % (a, b))
 
     def bi_all(self, f, pos, kws, st, ln):
@@ -732,6 +801,23 @@ class CallMixin:
         r = SStr(L.s_strip(s.t))
         st.assume(r.t != none_s)
         return [(st, r)]
+
+    def _str_unary(self, name, f, st, extra=()):
+        # an uninterpreted total function of the receiver (and its arguments): nothing is known about the result but that it is a string
+        self.assumed_used.add('A-STR')
+        args = [f.self_val.t] + [x.t for x in extra if isinstance(x, SStr)]
+        r = SStr(L.mkfun('str_' + name + ('%d' % len(args) if len(args) > 1 else ''), *([Str] * (len(args) + 1)))(*args))
+        st.assume(r.t != none_s)
+        return [(st, r)]
+
+    def bi_str_lower(self, f, pos, kws, st, ln): return self._str_unary('lower', f, st)
+    def bi_str_upper(self, f, pos, kws, st, ln): return self._str_unary('upper', f, st)
+    def bi_str_title(self, f, pos, kws, st, ln): return self._str_unary('title', f, st)
+    def bi_str_casefold(self, f, pos, kws, st, ln): return self._str_unary('casefold', f, st)
+    def bi_str_lstrip(self, f, pos, kws, st, ln): return self._str_unary('lstrip', f, st, pos)
+    def bi_str_rstrip(self, f, pos, kws, st, ln): return self._str_unary('rstrip', f, st, pos)
+    def bi_str_decode(self, f, pos, kws, st, ln): return self._str_unary('decode', f, st, pos)
+    def bi_str_encode(self, f, pos, kws, st, ln): return self._str_unary('encode', f, st, pos)
 
     def bi_str_replace(self, f, pos, kws, st, ln):
         self.assumed_used.add('A-STR')
